@@ -934,6 +934,9 @@ static int32 parseSafeContents(psPool_t *pool, unsigned char *password,
                 return rc;
             }
             p += rc;
+            /* Only one private key can be returned: a key from an earlier
+               bag is replaced. */
+            psClearPubKey(privKey);
             /* Result of decrypt will be a PKCS#8 key */
             if ((rc = psPkcs8ParsePrivBin(pool, pt, cryptlen, NULL, privKey))
                 < 0)
@@ -946,6 +949,7 @@ static int32 parseSafeContents(psPool_t *pool, unsigned char *password,
             p += cryptlen;
             break;
         case OID_PKCS12_BAG_TYPE_KEY:
+            psClearPubKey(privKey);
             if ((rc = psPkcs8ParsePrivBin(pool, (unsigned char *) p, tmplen,
                      NULL, privKey)) < 0)
             {
